@@ -407,10 +407,31 @@ def o_pow_real(x, y):
     if n is not None and abs(n) < (1 << 40):
         return o_pow_int(x, n)
     if x[0] > 0:
+        r = _exact_root_power(x, y)
+        if r is not None:
+            return r
         return ball.power(P(x), P(y))
     if x[0] == 0 and y[0] > 0:
         return RB.point(0, 0)
     raise Indeterminate('non-positive base with non-integer exponent')
+
+
+def _exact_root_power(x, y):
+    """x ** (n / 2^j) when the dyadic x > 0 is a perfect 2^j-th power (4 ** -2.5 = 2^-5): exact, else None"""
+    import math
+    m, e = dnorm(x)
+    n, ye = dnorm(y)
+    j = -ye
+    if j <= 0 or j > 64 or abs(n) > (1 << 20):
+        return None
+    for _ in range(j):
+        if e & 1:
+            return None
+        r = math.isqrt(m)
+        if r * r != m:
+            return None
+        m, e = r, e // 2
+    return o_pow_int((m, e), n)
 
 
 def o_pow_complex(x, y):
